@@ -44,8 +44,8 @@ var c18DomainSets = [][]string{
 	nil,
 	{"app.example.com"},
 	{".app.example.com"},
-	{"example.com", "app.example.com"},                      // two nested, shortest first
-	{"app.example.com", "example.com"},                      // two nested, longest first
+	{"example.com", "app.example.com"}, // two nested, shortest first
+	{"app.example.com", "example.com"}, // two nested, longest first
 	{"example.com", "x.app.example.com", "app.example.com"}, // three nested, scrambled
 	{"app.example.com", "other.org"},                        // two unrelated
 	{"other.org", ".app.example.com"},                       // two unrelated, other order, leading dot
@@ -149,7 +149,7 @@ type c18Host struct {
 }
 
 var c18HostNames = []struct {
-	class, name string
+	class, name  string
 	thoroughOnly bool
 }{
 	{"exact", "app.example.com", false},
@@ -793,6 +793,7 @@ func c18SelfTest(c *Ctx) {
 
 func c18Run(c *Ctx) {
 	c18SelfTest(c)
+	concRunFor(c, "C18")
 	{
 		world.NewIdP()
 		up := world.NewUpstream("sweep")
@@ -859,7 +860,7 @@ func init() {
 	register(&checkDef{
 		id:    "C18",
 		level: "exploration",
-		rule: "full product secure x httponly x samesite x path x domain sets x name length x store x csrf-per-request x reverse-proxy, times request hosts (exact, sub-domain, deeper, parent, unrelated, other domain, label-boundary; each with and without port; direct and via X-Forwarded-Host), times every cookie-emitting flow (sign-in page, login start, callback, refresh re-issue, oversized split session, sign-out, clear on invalid session, clear on authorisation failure, form login) driven by an RFC 6265 jar; every Set-Cookie line of every response is checked against a reference (attributes as configured, Domain = longest matching / shortest / none, <= 4096 bytes, deletions address the held cookie); evaluations = responses monitored; non-trivial = distinct (configuration, host, user, step) whose response carried a Set-Cookie",
+		rule:  "full product secure x httponly x samesite x path x domain sets x name length x store x csrf-per-request x reverse-proxy, times request hosts (exact, sub-domain, deeper, parent, unrelated, other domain, label-boundary; each with and without port; direct and via X-Forwarded-Host), times every cookie-emitting flow (sign-in page, login start, callback, refresh re-issue, oversized split session, sign-out, clear on invalid session, clear on authorisation failure, form login) driven by an RFC 6265 jar; every Set-Cookie line of every response is checked against a reference (attributes as configured, Domain = longest matching / shortest / none, <= 4096 bytes, deletions address the held cookie); evaluations = responses monitored; non-trivial = distinct (configuration, host, user, step) whose response carried a Set-Cookie",
 		assumptions: []string{
 			"request host = Host header, or X-Forwarded-Host only in reverse-proxy mode, without its port (DESIGN Appendix B)",
 			"'matching' read both as string suffix of the configured text and as RFC 6265 domain-match without the leading dot; the union is accepted, differing cases counted as ambiguous",
@@ -869,6 +870,9 @@ func init() {
 		shards: func(tier string) int { return 16 },
 		run:    c18Run,
 		replay: func(c *Ctx, raw json.RawMessage) string {
+			if out, ok := concReplayFor(c, "C18", raw); ok {
+				return out
+			}
 			var cs c18Case
 			if err := json.Unmarshal(raw, &cs); err != nil || cs.Cfg.Path == "" {
 				return "not a C18 case"
